@@ -950,6 +950,20 @@ impl RawMetadataAndRawRows {
         let rows_count: usize = types::read_int_length(frame_slice.as_slice_mut())
             .map_err(ResultMetadataAndRowsCountParseError::RowsCountParseError)?;
 
+        // Every cell takes at least 4 bytes (its length prefix), so the remaining bytes
+        // bound the number of rows. Without this check a corrupted rows count makes the
+        // row iterators yield up to 2^31 per-row errors out of a frame of a few bytes.
+        let col_count = metadata_deserialized.inner().col_specs().len();
+        let min_rows_size = rows_count.saturating_mul(col_count).saturating_mul(4);
+        if min_rows_size > frame_slice.as_slice().len() {
+            return Err(ResultMetadataAndRowsCountParseError::RowsCountParseError(
+                LowLevelDeserializationError::TooFewBytesReceived {
+                    expected: min_rows_size,
+                    received: frame_slice.as_slice().len(),
+                },
+            ));
+        }
+
         Ok(DeserializedMetadataAndRawRows {
             metadata: metadata_deserialized,
             rows_count,
